@@ -387,9 +387,56 @@ def scripted(i, bpc, count=0, rootent=0):
             ["removetree", "/g/h/i"], ["listdir", "/g/h"], ["readbytes", "/g/h/three.txt"]]
 
 
+def after_refusal_cases(ctx, vols, built):
+    """one request is refused because the volume really is too small for it; what fits afterwards must be carried out (C01-m10: the allocation
+    hint was left at the end of the table by the refused scan, every later request of the mount was refused)"""
+    from ..core import ImplRun, ScriptedClock
+    for label, thunk in vols:
+        if label not in built:
+            built[label] = thunk()
+        img, meta = built[label]
+        v = fatspec_volume(img, meta)
+        if not 60 <= v.count <= 70000:
+            continue
+        for lazy in (False, True):
+            ctx.evaluations += 1
+            ir = ImplRun(img, encoding="ibm437", lazy_load=lazy)
+            with ScriptedClock():
+                if ir.mount()[0][0] != "ok":
+                    continue
+                pf = ir.fs.fs
+                free = sum(1 for c in range(2, min(v.count + 2, len(pf.fat))) if pf.fat[c] == 0)
+                ops = [["writebytes", "/KEEP.BIN", "6b" * (2 * v.bpc)], ["writebytes", "/HUGE.BIN", "00" * ((free + 3) * v.bpc)]]
+                r0, _ = ir.op(ops[0])
+                r1, _ = ir.op(ops[1])
+                if r0[0] != "ok" or r1[0] != "err":
+                    continue        # no room for the setup / the volume took it: nothing to judge here
+                ctx.nontrivial.add(("after-refusal", label, lazy))
+                shown = [ops[0][:2], ["writebytes", "/HUGE.BIN", f"<{free + 3} clusters>"]]
+                for op in (["remove", "/HUGE.BIN"],):
+                    if ir.op(["exists", "/HUGE.BIN"])[0] == ("ok", True):
+                        ir.op(op)
+                        shown.append(op)
+                free2 = sum(1 for c in range(2, min(v.count + 2, len(pf.fat))) if pf.fat[c] == 0)
+                follow = [["writebytes", "/SMALL.BIN", "51" * (3 * v.bpc)], ["makedir", "/after"], ["writebytes", "/after/x.bin", "52" * (v.bpc + 1)]]
+                for op in follow:
+                    r, _ = ir.op(op)
+                    shown.append([op[0], op[1]])
+                    if r[0] != "ok" and free2 >= 12:
+                        ctx.violation(f"{label}: after a request for {free + 3} clusters was refused ({r1[1]}; {free} were free), {op[:2]} is refused too ({r[1]}) "
+                                      f"while {free2} clusters are free", "spurious-enospc:after-refusal:" + op[0], dict(volume=meta, lazy_load=lazy, ops=shown))
+                        break
+                else:
+                    got = ir.op(["readbytes", "/SMALL.BIN"])[0]
+                    if free2 >= 12 and (got[0] != "ok" or got[1] != b"\x51" * (3 * v.bpc)):
+                        ctx.violation(f"{label}: the file written after a refused request does not read back", "after-refusal:readback", dict(volume=meta, lazy_load=lazy, ops=shown))
+                ir.op(["closefs"])
+
+
 def run(ctx):
     vols = gen.volumes(ctx.tier)
     built = {}
+    after_refusal_cases(ctx, vols, built)
     for i in range(len(vols) * 6):
         label, thunk = vols[i % len(vols)]
         if label in ("build32-high",) and ctx.tier == "quick":
